@@ -281,6 +281,131 @@ theorem info_limit_witness : ¬ info_full := by
 /-- … and 2045 bytes still pass -/
 example : parseInfo (serInfo [(1, List.replicate 2045 65), (4, [66])]) = [(1, List.replicate 2045 65), (4, [66])] := by decide +kernel
 
+/-! ## instrument (`smpl`) -/
+
+theorem wrapU32_lt (x : Int) : wrapU 32 x < 2 ^ 32 := by
+  unfold wrapU
+  have h := Int.emod_lt_of_pos x (show (0 : Int) < 2 ^ 32 by decide)
+  have h0 := Int.emod_nonneg x (show (2 ^ 32 : Int) ≠ 0 by decide)
+  omega
+
+theorem loopTypeEnc_lt (m : Int) : loopTypeEnc m < 2 ^ 32 := by
+  unfold loopTypeEnc
+  split
+  · decide
+  · split
+    · decide
+    · split <;> decide
+
+theorem stop_roundtrip (s : Nat) (h : s < 2 ^ 32) : (wrapU 32 ((s : Int) - 1) + 1) % 2 ^ 32 = s := by
+  unfold wrapU
+  by_cases h0 : s = 0
+  · subst h0; decide
+  · have : ((s : Int) - 1) % 2 ^ 32 = (s : Int) - 1 := Int.emod_eq_of_lt (by omega) (by omega)
+    rw [this]
+    omega
+
+theorem serLoop_length (k : Nat) (l : Loop) : (serLoop k l).length = 24 := by simp [serLoop]
+
+theorem serLoops_length (k : Nat) (ls : List Loop) : (serLoops k ls).length = 24 * ls.length := by
+  induction ls generalizing k with
+  | nil => simp [serLoops]
+  | cons l t ih => simp only [serLoops, List.length_append, serLoop_length, ih, List.length_cons]; omega
+
+theorem parseLoop_serLoop (k : Nat) (l : Loop) (h : l.start < 2 ^ 32 ∧ l.stop < 2 ^ 32 ∧ l.count < 2 ^ 32) :
+    parseLoop (serLoop k l) = normLoop l := by
+  obtain ⟨h1, h2, h3⟩ := h
+  have e := loopTypeEnc_lt l.mode
+  have w := wrapU32_lt ((l.stop : Int) - 1)
+  have sr : (wrapU 32 ((l.stop : Int) - 1) + 1) % 4294967296 = l.stop := stop_roundtrip l.stop h2
+  simp [parseLoop, serLoop, normLoop, List.drop_append, ofLE_le4, List.drop_eq_nil_of_le, List.take_of_length_le, stop_roundtrip, *]
+
+theorem parseLoops_serLoops (ls : List Loop) (h : ∀ l ∈ ls, l.start < 2 ^ 32 ∧ l.stop < 2 ^ 32 ∧ l.count < 2 ^ 32) :
+    ∀ fuel k, ls.length ≤ fuel → parseLoops fuel (serLoops k ls) = ls.map normLoop := by
+  induction ls with
+  | nil => intro fuel k _; cases fuel <;> simp [parseLoops, serLoops]
+  | cons l t ih =>
+    intro fuel k hf
+    cases fuel with
+    | zero => simp at hf
+    | succ f =>
+      show parseLoops (f + 1) (serLoop k l ++ serLoops (k + 1) t) = (l :: t).map normLoop
+      rw [parseLoops, List.map_cons]
+      rw [if_neg (by simp [serLoop_length]), take_front _ _ 24 (serLoop_length k l), drop_front _ _ 24 (serLoop_length k l),
+        parseLoop_serLoop k l (h l (by simp)), ih (fun l hl => h l (by simp [hl])) f (k + 1) (by simpa using hf)]
+
+/-- get after re-open = normInst (set) for 0 … 16 loops: base note, loop modes, starts, ends and counts survive; gain, key
+    and velocity ranges are replaced by 1, 0..127, 0..127 and detune goes through detuneDec ∘ detuneEnc -/
+theorem inst_roundtrip (period : Nat) (i : Inst) (hp : period < 2 ^ 32) (hl : i.loops.length ≤ 16)
+    (hw : ∀ l ∈ i.loops, l.start < 2 ^ 32 ∧ l.stop < 2 ^ 32 ∧ l.count < 2 ^ 32) :
+    readSmpl (writeSmpl period i) = some (normInst i) := by
+  have hs : 36 + i.loops.length * 24 < 2 ^ 32 := by omega
+  have hn : i.loops.length < 2 ^ 32 := by omega
+  have hb := wrapU32_lt i.basenote
+  have hd : detuneEnc i.detune < 2 ^ 32 := wrapU32_lt _
+  have hev : (36 + i.loops.length * 24) % 2 = 0 := by omega
+  unfold readSmpl writeSmpl
+  simp only [List.append_assoc]
+  have e4 : (mk "smpl").length = 4 := by decide
+  rw [drop_front_add (mk "smpl") _ 4 0 e4, drop_front_add (mk "smpl") _ 4 4 e4]
+  simp only [List.drop_zero, take_front _ _ 4 (le4_length _), drop_front _ _ 4 (le4_length _), ofLE_le4 hs, hev, Nat.add_zero]
+  have hlen : (le4 0 ++ (le4 0 ++ (le4 period ++ (le4 (wrapU 32 i.basenote) ++ (le4 (detuneEnc i.detune) ++ (le4 0 ++ (le4 0 ++
+      (le4 i.loops.length ++ (le4 0 ++ serLoops 0 i.loops))))))))).length = 36 + i.loops.length * 24 := by
+    simp [serLoops_length]; omega
+  rw [List.take_of_length_le (Nat.le_of_eq hlen)]
+  have hz : (0 : Nat) < 2 ^ 32 := by decide
+  rw [if_neg (by omega)]
+  simp [normInst, List.drop_append, ofLE_le4, List.drop_eq_nil_of_le, List.take_of_length_le, hl, *]
+  by_cases h0 : i.loops = []
+  · simp [h0]
+  · rw [if_neg h0, parseLoops_serLoops i.loops hw _ 0 (by omega), List.take_of_length_le (by simpa using hl)]
+
+def instSample : Inst := ⟨1, 60, 5, 0, 127, 0, 127, [⟨801, 1, 3, 7⟩, ⟨803, 2, 4, 0⟩]⟩
+
+example : readSmpl (writeSmpl 22675 instSample) = some instSample ∧ normInst instSample = instSample := by decide +kernel
+
+/-- the full statement for the instrument: what is set is what is returned -/
+def inst_full : Prop := ∀ (i : Inst), i.loops.length ≤ 16 → -128 ≤ i.detune ∧ i.detune ≤ 127 → 0 ≤ i.keyLo ∧ i.keyLo ≤ i.keyHi ∧ i.keyHi ≤ 127 →
+  readSmpl (writeSmpl 22675 i) = some i
+
+/-- key (and velocity) ranges and the gain are not stored … -/
+theorem inst_ranges_lost : ¬ inst_full := by
+  intro h
+  have := h { instSample with keyLo := 10, keyHi := 90 } (by decide) (by decide) (by decide)
+  revert this; decide +kernel
+
+/-- … and a negative detune comes back with the wrong sign: -50 cents re-open as +50 -/
+theorem inst_detune_sign_lost : (normInst { instSample with detune := -50 }).detune = 50 ∧ (normInst { instSample with detune := 100 }).detune = 0 := by
+  decide +kernel
+
+/-- classes KF.smplRanges / KF.smplDetune: outside them (gain 1, full key and velocity ranges, detune 0 … 99, base note a
+    char, loop modes from the SF_LOOP_* enum) the round trip is exact -/
+theorem inst_roundtrip_partial (period : Nat) (i : Inst) (hp : period < 2 ^ 32) (hl : i.loops.length ≤ 16)
+    (hw : ∀ l ∈ i.loops, l.start < 2 ^ 32 ∧ l.stop < 2 ^ 32 ∧ l.count < 2 ^ 32 ∧ (l.mode = 800 ∨ l.mode = 801 ∨ l.mode = 802 ∨ l.mode = 803))
+    (hg : i.gain = 1) (hv : i.velLo = 0 ∧ i.velHi = 127) (hk : i.keyLo = 0 ∧ i.keyHi = 127)
+    (hd : detuneDec (detuneEnc i.detune) = i.detune) (hb : -128 ≤ i.basenote ∧ i.basenote ≤ 127) :
+    readSmpl (writeSmpl period i) = some i := by
+  rw [inst_roundtrip period i hp hl (fun l hl' => ⟨(hw l hl').1, (hw l hl').2.1, (hw l hl').2.2.1⟩)]
+  have hbn : wrapS 8 (wrapU 32 i.basenote) = i.basenote := by
+    unfold wrapS wrapU
+    obtain ⟨b1, b2⟩ := hb
+    have h1 := Int.emod_emod_of_dvd i.basenote (show (2 ^ 8 : Int) ∣ 2 ^ 32 by decide)
+    have h2 := Int.emod_nonneg i.basenote (show (2 ^ 32 : Int) ≠ 0 by decide)
+    simp only [Int.toNat_of_nonneg h2, h1]
+    omega
+  have hm : i.loops.map normLoop = i.loops := by
+    conv => rhs; rw [← List.map_id i.loops]
+    apply List.map_congr_left
+    intro l hl'
+    obtain ⟨_, _, _, m⟩ := hw l hl'
+    cases l
+    rcases m with m | m | m | m <;> simp_all [normLoop, loopTypeEnc, loopTypeDec, SF_LOOP_FORWARD, SF_LOOP_BACKWARD, SF_LOOP_ALTERNATING, SF_LOOP_NONE]
+  cases i
+  simp_all [normInst]
+
+/-- detune 0 … 99 is inside the exact region (checked on every value) -/
+theorem detune_exact_range : ∀ d ∈ List.range 100, detuneDec (detuneEnc (d : Int)) = (d : Int) := by decide +kernel
+
 /-! ## the string table -/
 
 theorem init_inv (fl : Nat) : (Strings.init fl).Inv := by
